@@ -632,6 +632,7 @@ func init() {
 	replayRegistrars = append(replayRegistrars, func() {
 		registerReplay("C16/workloads", runIsoCase)
 		registerReplay("C16/release-during-notification", runNotifyRaceCase)
+		registerReplay("C16/flush-waiters", func(c batchCase) *fail { return runBatchCase(c, nil) })
 	})
 }
 
@@ -665,6 +666,35 @@ func TestC16(t *testing.T) {
 	}
 	shrinkTime = "1s" // a stuck workload costs 30 s per attempt: do not spend minutes shrinking it
 	defer func() { shrinkTime = "20s" }()
+	// lost wake-ups around tag waiting: 2-4 Tflush requests wait for the same held
+	// request (held in GetAttr, or in the Close made by a Tclunk); after the release
+	// every one of them and the request itself must be answered
+	if env.Shard == 0 && os.Getenv("VERIF_C16_RACE") == "" {
+		for _, heldIn := range []string{"", "clunk"} {
+			for k := 2; k <= 4; k++ {
+				for _, chained := range []bool{false, true} {
+					c := batchCase{Native: k%2 == 0, Reqs: []batchReq{{Kind: "gated", Tag: 10, Held: heldIn}}, Release: []int{0}}
+					for j := 0; j < k; j++ {
+						of := 0
+						if chained && j > 0 {
+							of = j // the previous flush
+						}
+						c.Reqs = append(c.Reqs, batchReq{Kind: "flush-of", Tag: uint16(20 + j), Of: of})
+					}
+					c.Reqs = append(c.Reqs, batchReq{Kind: "statfs", Tag: 40})
+					f := runBatchCase(c, &batchStats{})
+					h.Case(evid.HashJSON(c), true, "directed:several-flushes-wait-for-one-request")
+					if f != nil && strings.HasPrefix(f.Sig, "harness-") {
+						t.Errorf("HARNESS-ERROR %s", f.Msg)
+						continue
+					}
+					if h.report("flush-waiters", f, c) {
+						return
+					}
+				}
+			}
+		}
+	}
 	nWork := env.PerShard(env.Pick(400, 32000))
 	raceStage := os.Getenv("VERIF_C16_RACE") != "" // the -race stage: fewer, smaller, mostly hot-spot workloads
 	if raceStage {
